@@ -146,10 +146,10 @@ def to_rfi_sib(cx, fn):
     cx.need(len(blocks) == 3, 'transform.to_rfi: normalisation blocks found for %s only' % sorted(blocks))
     nfs = {p: sym.norm_block([b], {p: ('var', '<SETTING>')}) for p, b in blocks.items()}
     ref = nfs['resolution']
-    spec = sym.norm_block(ast.parse(
+    spec = sym.norm_block(sym.parse_block(
         "if S is None:\n    S = [None]*len(channels)\n"
         "elif hasattr(S, '__iter__'):\n    if len(S) != len(channels):\n        raise ValueError('x')\n"
-        "else:\n    raise ValueError('x')\n").body, {'S': ('var', '<SETTING>')})
+        "else:\n    raise ValueError('x')\n"), {'S': ('var', '<SETTING>')})
     for p in ROLE_PARAMS:
         same = nfs[p] == spec
         fn.ob('SIB', 'normalisation of %s: None -> per-channel None, list of other length refused, anything else refused' % p,
